@@ -35,9 +35,9 @@ def main():
     m = {
         "version": 1,
         "setup_cmd": "bash tools/setup.sh",
-        "hooks": {"guard": "lexical_verif", "enable": "harness/.cargo/config.toml passes --cfg lexical_verif (no hook is needed by any check so far)",
+        "hooks": {"guard": "lexical_verif", "enable": "harness/.cargo/config.toml sets rustflags --cfg lexical_verif --check-cfg cfg(lexical_verif) for every worker build (checks rebuild the workers from /repo's working tree); the hooks only add the `tier` field to events, every verdict is independent of them",
                   "baseline_off_cmd": "cd /repo && cargo test --workspace --no-fail-fast --offline",
-                  "source_commits": [], "add_only": True},
+                  "source_commits": ["5c0bdd4"], "add_only": True},
         "engines": [{"name": "tlc-trace", "path": "tools/run_check.py", "serves_properties": [c["property_id"] for c in checks],
                      "kind_free_text": "TLA+ specification (spec/*.tla); TLC explores bounded models and validates ndjson traces recorded from the real crates (harness/), one JVM per shard"}],
         "checks": checks,
